@@ -235,6 +235,48 @@ def wide_tables(draw):
 
 
 @st.composite
+def tall_tables(draw):
+    """513-2100 objects x 3-7 properties (or transposed) whose columns are predicates over one integer per object -
+    mostly *wide* thresholds and intervals (each true for most objects), residues, and columns derived from two others
+    (a superset of their intersection, a subset of their union) - so that columns imply each other the way scaled
+    real data does (``age >= 18`` and ``age < 50`` imply ``full fare``) while their intersections still hold hundreds
+    of objects; independent random columns never do that at this size.  Column order is drawn separately."""
+    n = draw(st.one_of(st.integers(513, 700), st.integers(1025, 1100), st.integers(1025, 1100), st.integers(1500, 2100)))
+    m = draw(st.integers(3, 7))
+    top = draw(st.sampled_from([20, 100, 1000]))
+    values = draw(st.lists(st.integers(0, top - 1), min_size=n, max_size=n))
+    cols = []
+    for _ in range(m):
+        kind = draw(st.sampled_from(['ge', 'lt', 'interval', 'mod', 'superset-of-meet', 'subset-of-join', 'ge', 'lt']))
+        a = draw(st.integers(0, top // 5))
+        b = draw(st.integers(top - top // 5, top))
+        k = draw(st.integers(2, 7))
+        if kind in ('superset-of-meet', 'subset-of-join') and len(cols) >= 2:
+            x, y = draw(st.sampled_from(cols)), draw(st.sampled_from(cols))
+            extra = [v % k == 0 for v in values]
+            col = ([(p and q) or e for p, q, e in zip(x, y, extra)] if kind == 'superset-of-meet'
+                   else [(p or q) and not e for p, q, e in zip(x, y, extra)])
+        elif kind == 'lt':
+            col = [v < b for v in values]
+        elif kind == 'interval':
+            col = [a <= v < b for v in values]
+        elif kind == 'mod':
+            col = [v % k != 0 for v in values]
+        else:
+            col = [v >= a for v in values]
+        cols.append(col)
+    cols = draw(st.permutations(cols))
+    rows = [sum(1 << j for j, col in enumerate(cols) if col[i]) for i in range(n)]
+    transposed = draw(st.integers(0, 3)) == 0
+    if transposed:
+        rows = transpose(n, m, rows)
+        n, m = m, n
+    case = mk_case(labels('o', range(n)), labels('p', range(m)), rows)
+    case['f'] = 'tall-scaled' + ('T' if transposed else '')
+    return case
+
+
+@st.composite
 def mid_tables(draw):
     """Middling sizes: 11-26 objects x 7-16 properties (or transposed), sparse or dense fill, 40-600 concepts typically;
     optionally some duplicated rows and a few rows that are unions / intersections of others."""
